@@ -2,6 +2,8 @@
 from vlib import *
 from protolib import *
 from checks.agg import Only
+from checks.lifetr import life_trace_part, judge_driver_traces
+import os, shutil
 
 LIFE_SETUP = ("life 1",)
 
@@ -12,10 +14,20 @@ def run_life(v, tier, pred):
     tlc_require_ok(r, "Life")
     v.add_tlc("life/Life.tla:mc", r)
     px = Only(v, pred, 1.0)
-    replay_sim(px, "rep", False, "life/Life.tla", "Life_sim.cfg", 12000 if thorough else 2500, 30, auto=True, setup=LIFE_SETUP)
+    ddir = os.path.join(WORK, "traces-life-drv-" + v.prop)
+    shutil.rmtree(ddir, ignore_errors=True)
+    os.makedirs(ddir)
+    replay_sim(px, "rep", False, "life/Life.tla", "Life_sim.cfg", 12000 if thorough else 2500, 30, auto=True, setup=LIFE_SETUP,
+               drv_env={"DRV_LIFE_TRACE_DIR": ddir})
+    # ... and what the library did in those replays, record by record, against life/LifeEv.tla
+    judge_driver_traces(px, ddir)
+    shutil.rmtree(ddir, ignore_errors=True)
+    # code -> spec: life-cycle records of the repository's tests against life/TraceLife.tla (life/LifeEv.tla)
+    life_trace_part(px, tier)
     v.cov["divergences_outside_this_property"] = px.other
     v.cov["distinct_nontrivial"] = sum(x["walks"] for x in v.cov["edge_cover"].values())
-    v.cov["rule"] = "TLC -simulate behaviours (depth 30) of Life.tla replayed in run-to-quiescence steps under the virtual clock; distinct = behaviours"
+    v.cov["rule"] = ("TLC -simulate behaviours (depth 30) of Life.tla replayed in run-to-quiescence steps under the virtual clock; distinct = "
+                     "behaviours; plus the sockets of the repository's tests whose recorded life cycle TLC accepted (life_trace_validation)")
     v.assumptions += ["one protocol (REP) and the harness transport stand for all protocols x transports: close, endpoint and pipe-event "
                       "handling live in src/core and are shared", "close is issued from the driver thread while every library thread runs free; "
                       "interleavings of close with a second thread issuing operations are not enumerated"]
